@@ -1,6 +1,7 @@
 package zzh
 
 import (
+	"slices"
 	"strings"
 	"sync"
 	"sync/atomic"
@@ -155,5 +156,72 @@ func H_SELF_init() {
 	vrt.Assert("package-level table was built by init", len(selfTable) == 2 && selfTable["double"] != nil)
 	vrt.AssertEqF("closure from the init-built table", selfTable["double"](x)+selfTable["neg"](x), x)
 	vrt.Assert("package-level var with initialiser", selfErr != nil && selfErr.Error() == "sentinel")
+	vrt.Reach("done")
+}
+
+func selfSafeDiv(a, b int) (q int, err error) {
+	defer func() {
+		if r := recover(); r != nil {
+			q, err = -1, errNew("recovered")
+		}
+	}()
+	return a / b, nil
+}
+
+func selfRethrow() (msg string) {
+	defer func() {
+		if r := recover(); r != nil {
+			msg = r.(string)
+		}
+	}()
+	var wg sync.WaitGroup
+	var caught any
+	wg.Add(1)
+	go func() {
+		defer wg.Done()
+		defer func() { caught = recover() }()
+		panic("boom")
+	}()
+	wg.Wait()
+	if caught != nil {
+		panic(caught)
+	}
+	return "none"
+}
+
+// H_SELF_recover: deferred calls run while a panic unwinds; recover() stops it; named results survive.
+func H_SELF_recover() {
+	q, err := selfSafeDiv(7, 0)
+	vrt.Assert("recovered division by zero", q == -1 && err != nil)
+	q, err = selfSafeDiv(7, 2)
+	vrt.Assert("no panic: normal result", q == 3 && err == nil)
+	vrt.Assert("worker panic re-raised on the caller and recovered there", selfRethrow() == "boom")
+	order := ""
+	func() {
+		defer func() { order += "a" }()
+		defer func() { order += "b" }()
+		order += "c"
+	}()
+	vrt.Assert("defers run LIFO", order == "cba")
+	panicked := vrt.Try(func() {
+		defer func() { order += "d" }()
+		var p *int
+		_ = *p
+	})
+	vrt.Assert("an unrecovered panic still propagates, after its deferred calls", panicked && order == "cbad")
+	vrt.Reach("done")
+}
+
+// H_SELF_slices: package slices on interpreted slices (Insert / Replace use the overlap test).
+func H_SELF_slices() {
+	s := []int{1, 2, 5}
+	s = slices.Insert(s, 2, 3, 4)
+	vrt.Assert("slices.Insert", len(s) == 5 && s[2] == 3 && s[4] == 5)
+	s = slices.Insert(s, 1, s[3:]...)
+	vrt.Assert("slices.Insert of an overlapping tail", len(s) == 7 && s[1] == 4 && s[2] == 5 && s[3] == 2)
+	slices.Reverse(s)
+	vrt.Assert("slices.Reverse / Index / Contains", s[0] == 5 && slices.Index(s, 1) == 6 && slices.Contains(s, 4))
+	slices.Sort(s)
+	vrt.Assert("slices.Sort", slices.IsSorted(s) && slices.Max(s) == 5)
 	vrt.Reach("done")
 }
